@@ -135,7 +135,7 @@ for _p, _txt in (('C01', 'every returned block checked against mapping registry,
     add(_p, level='exploration',
         rule='seeded allocate/free/deallocate/realloc histories on 16 policy configurations (aligned/unaligned map, 5 geometries, poison on/off, 3 mutex types) + all sequences of length 6 on nearly-full tiny slabs: ' + _txt,
         jobs=[job('slab', 'c01_slab.cpp', args=['--arg', 'prop=' + _p], shards={'quick': 12, 'thorough': 16}, hang_is_violation=True),
-              job('slab_track_regions', 'c01_slab.cpp', defines=['-DFRG_SLAB_TRACK_REGIONS'], args=['--arg', 'prop=' + _p], tiers=('thorough',), shards={'thorough': 16}, hang_is_violation=True)]
+              job('slab_track_regions', 'c01_slab.cpp', defines=['-DFRG_SLAB_TRACK_REGIONS'], args=['--arg', 'prop=' + _p], shards={'quick': 6, 'thorough': 16}, quick_args=['--scale', '0.34'], hang_is_violation=True)]
              # C03 across threads: the controlled-scheduler driver of C05 with a poisoning policy whose callbacks are scheduling points
              + ([job('slab_sched_poison', 'c05_slab_sched.cpp', args=['--arg', 'prop=C03'], shards={'quick': 5, 'thorough': 8})] if _p == 'C03' else []),
         min_evaluations={'quick': 10000, 'thorough': 100000},
